@@ -168,9 +168,7 @@ def run_reads(ctx):
                    "script": [({"seed": m["d"].seed, "n": len(m["d"]), "e": -1 if m["e"] is None else m["e"]}
                                if hasattr(m["d"], "seed") and len(m["d"]) > 64 else
                                {"d": m["d"].hex(), "e": -1 if m["e"] is None else m["e"]}) for m in c["script"]]})
-    files = dict(DRV)
-    files["zz_verif_read_test.go"] = "c16/read_driver_test.go"
-    rc, out, res = ctx.go_inpkg(".", "pkg/dtls", files, "^TestVerifC16Read$", js, timeout=600)
+    res, out = yield ("go", "read", js)
     if res is None or len(res) != len(cases):
         ctx.broken("driver", "Go read driver did not produce results: %s" % out[-800:])
         return
@@ -207,7 +205,7 @@ def run_reads(ctx):
             glist(reads, lambda x: "(%s, %s)" % (bspec_obs(x[0]), gopt(x[1], gN)))))
     ctx.sample({"sub": "read", "case": js[0], "observed": res[0]})
     ctx.sample({"sub": "read", "case": {k: v for k, v in js[-1].items()}, "observed": res[-1]})
-    mm = ctx.coq_mismatches("read", HEADER, terms, "chk", shard=150, need_vo=["C16/Run.vo"])
+    mm = yield ("coq", terms)
     if mm:
         ctx.cov["mismatches"] += len(mm)
         i = mm[0]
@@ -215,6 +213,592 @@ def run_reads(ctx):
         ctx.broken("correspondence", "read model (sctp_read over hb_filter) and SCTPConn.Read disagree on %d case(s); first: %s mx=%d"
                    % (len(mm), "server" if c["server"] else "client", c["mx"]),
                    {"read_cases": [js[i]], "observed": res[i]})
+
+
+# ------------------------------------------------------------------ (iii) flow control
+FC_OPS = {"W": 0, "D": 1, "X": 2, "G": 3, "C": 4}
+WMAX, WTHR = 262144, 131072
+
+
+def gen_fc_cases(ctx):
+    rng = ctx.rng
+    quick = ctx.tier == "quick"
+    cases = []
+    # the stale-token run that reaches the bound exactly, and the plain blocking run
+    cases.append([("W", WTHR), ("G", 0), ("W", WTHR), ("G", 0), ("D", WTHR), ("W", WTHR), ("G", 0),
+                  ("W", WTHR), ("G", 0), ("W", 1), ("D", 300000), ("G", 0), ("W", WTHR + 1), ("W", 0), ("X", 32)])
+    cases.append([("W", WTHR), ("G", 0), ("W", WTHR), ("G", 0), ("W", 1), ("D", 1), ("D", WTHR), ("G", 0),
+                  ("W", WTHR), ("C", 0), ("D", 5)])
+    cases.append([("W", WTHR), ("G", 0), ("W", WTHR), ("G", 0), ("W", 70000), ("C", 0), ("D", 400000), ("X", 32)])
+    wn = [0, 1, 1000, 65536, 100000, WTHR - 1, WTHR, WTHR, WTHR, WTHR + 1, 200000]
+    dn = [1, 1000, 65536, WTHR - 1, WTHR, WTHR + 1, WMAX, 400000]
+    for _ in range(60 if quick else 1500):
+        ops = []
+        closed = False
+        for _ in range(rng.randrange(4, 40)):
+            r = rng.random()
+            if r < 0.35 and not closed:
+                ops.append(("W", rng.choice(wn)))
+                if rng.random() < 0.7:
+                    ops.append(("G", 0))
+            elif r < 0.6:
+                ops.append(("D", rng.choice(dn)))
+            elif r < 0.75:
+                ops.append(("G", 0))
+            elif r < 0.85:
+                ops.append(("X", 32))
+            elif r < 0.88 and not closed:
+                ops.append(("C", 0))
+                closed = True
+            else:
+                ops.append(("D", rng.choice(dn)))
+        cases.append(ops)
+    for c in (ctx.replay or {}).get("fc_cases", []):
+        cases.insert(0, [(o[0], o[1]) for o in c])
+    return cases
+
+
+def run_fc(ctx):
+    cases = gen_fc_cases(ctx)
+    js = [{"ops": [{"op": o, "n": n} for o, n in c]} for c in cases]
+    res, out = yield ("go", "fc", js)
+    if res is None or len(res) != len(cases):
+        ctx.broken("driver", "Go flow-control driver did not produce results: %s" % out[-800:])
+        return
+    terms = []
+    for c, r in zip(cases, res):
+        steps = r.get("steps") or []
+        foreign = 0
+        kinds = set()
+        bad = None
+        for (o, n), st in zip(c, steps):
+            if o == "X":
+                foreign += n
+            if st["buffered"] > WMAX + WTHR + foreign:
+                bad = ("over-bound", "buffered amount %d exceeds 256 KiB + 128 KiB (+%d bytes written past flow control)"
+                       % (st["buffered"], foreign))
+            if st["buffered"] > WMAX:
+                kinds.add("stale-token")
+            if st["writer"] == 1:
+                kinds.add("blocked")
+            if st["ret"] and st["rete"] == 4:
+                kinds.add("limit")
+            if st["ret"] and st["rete"] == 5:
+                kinds.add("closed-while-blocked")
+            if st["ret"] and st["rete"] in (E_HANG, E_PANIC):
+                bad = ("hang-or-panic", "Write hung or panicked")
+            if o == "W" and n > WTHR and st["ret"] and not (st["rete"] == 4 and st["retn"] == 0):
+                bad = ("limit-not-enforced", "a %d-byte write was not refused" % n)
+        if r.get("maxseen", 0) > WMAX + WTHR + foreign:
+            bad = ("over-bound", "buffered amount reached %d" % r["maxseen"])
+        if len(steps) != len(c):
+            bad = bad or ("driver-stopped", r.get("note", ""))
+        ctx.count(tuple(c), kind="fc/" + ("+".join(sorted(kinds)) or "plain"))
+        for k in kinds:
+            ctx.count(("k", k, tuple(c)), nontrivial=False, kind="fc/has-" + k)
+        if bad:
+            ctx.fail("fc/" + bad[0], "SCTPConn.Write flow control: " + bad[1], {"fc_cases": [c], "observed": steps[:60]})
+        terms.append("CFc %s %s" % (
+            glist(c, lambda x: "(%s, %s)" % (gN(FC_OPS[x[0]]), gN(x[1]))),
+            glist(steps, lambda st: "(%s, %s, %s, %s)" % (
+                gN(st["buffered"]), gbool(st["token"] > 0), gN(st["writer"]),
+                ("(Some (%s, %s))" % (gN(st["retn"]), gopt(None if st["rete"] < 0 else st["rete"], gN))) if st["ret"] else "None"))))
+    ctx.sample({"sub": "fc", "ops": cases[0], "observed": res[0]})
+    mm = yield ("coq", terms)
+    if mm:
+        ctx.cov["mismatches"] += len(mm)
+        i = mm[0]
+        ctx.broken("correspondence", "flow-control model (fc_step) and SCTPConn.Write disagree on %d case(s)" % len(mm),
+                   {"fc_cases": [cases[i]], "observed": res[i]})
+
+
+# ------------------------------------------------------------------ (ii) queue under a schedule
+def gen_hbq_cases(ctx):
+    rng = ctx.rng
+    quick = ctx.tier == "quick"
+    cases = []
+    hb = bytes([0xAA, 0xBB])
+    for _ in range(80 if quick else 1500):
+        script = []
+        for _ in range(rng.randrange(1, 8)):
+            r = rng.random()
+            if r < 0.3:
+                script.append(msg(hb, rng.choice([None, None, 41]), role="hb"))
+            else:
+                n = rng.randrange(0, 5)
+                d = bytes(rng.randrange(1, 200) for _ in range(n))
+                if d == hb:
+                    continue
+                script.append(msg(d, rng.choice([None] * 5 + [30, 31])))
+        ops = ""
+        bal = 0
+        for _ in range(rng.randrange(4, 30)):
+            if rng.random() < 0.5 and bal < 50:
+                ops += "r"
+                bal += 1
+            else:
+                ops += "R"
+                bal = max(0, bal - 1)
+        ops += "rR" * 3
+        cases.append({"mx": 8, "hb": hb, "script": script, "ops": ops})
+    # everything queued (and the error) before the reader starts: the case that lost data before the fix
+    cases.append({"mx": 8, "hb": hb, "script": [msg(b"\x01\x02"), msg(hb, role="hb"), msg(b"\x03"), msg(b"\x04\x05", 30)],
+                  "ops": "rrrr" + "R" * 6})
+    return cases
+
+
+def run_hbq(ctx):
+    cases = gen_hbq_cases(ctx)
+    js = [{"mx": c["mx"], "hb": c["hb"].hex(), "ops": c["ops"],
+           "script": [{"d": m["d"].hex(), "e": -1 if m["e"] is None else m["e"]} for m in c["script"]]} for c in cases]
+    res, out = yield ("go", "hbq", js)
+    if res is None or len(res) != len(cases):
+        ctx.broken("driver", "Go heartbeat-queue driver did not produce results: %s" % out[-800:])
+        return
+    terms = []
+    for c, r in zip(cases, res):
+        outp = r.get("out") or []
+        exp = [m for m in c["script"] if m["role"] != "hb"]
+        cut = next((i for i, m in enumerate(exp) if m["e"] is not None), None)
+        exp = exp[:cut + 1] if cut is not None else exp + [msg(b"", E_EOS)]
+        got = [(bytes.fromhex(o["d"] or ""), None if o["e"] < 0 else o["e"]) for o in outp if o["kind"] == 2]
+        closed_seen = any(o["kind"] == 3 for o in outp)
+        bad = None
+        if got != [(m["d"], m["e"]) for m in exp[:len(got)]]:
+            bad = ("lost-or-reordered", "hbConn.Read returned %s, the stream without heartbeats is %s"
+                   % ([(d.hex(), e) for d, e in got], [(m["d"].hex(), m["e"]) for m in exp]))
+        elif closed_seen and len(got) < len(exp) and not any(o["kind"] == 2 and i > next(j for j, x in enumerate(outp) if x["kind"] == 3)
+                                                            for i, o in enumerate(outp)) :
+            first_closed = next(j for j, x in enumerate(outp) if x["kind"] == 3)
+            ngot_before = sum(1 for o in outp[:first_closed] if o["kind"] == 2)
+            nrecv_before = c["ops"][:first_closed].count("r")
+            bad = ("closed-before-drain", "net.ErrClosed reported after %d of %d queued message(s)" % (ngot_before, len(exp)))
+        if any(o["kind"] == 2 and o["e"] in (E_HANG, E_PANIC) for o in outp):
+            bad = ("hang", "hbConn.Read hung")
+        ctx.count((tuple((m["d"], m["e"], m["role"]) for m in c["script"]), c["ops"]),
+                  kind="hbq/%s%s" % ("closed" if closed_seen else "open", "+blocked" if any(o["kind"] == 1 for o in outp) else ""))
+        if bad:
+            ctx.fail("hbq/" + bad[0], "heartbeat server queue: " + bad[1],
+                     {"hbq_cases": [js[cases.index(c)]], "observed": outp})
+        terms.append("CHbq %s %s %s %s %s" % (
+            gN(c["mx"]), hexs(c["hb"]),
+            glist(c["script"], lambda m: "(%s, %s)" % (bspec_in(m["d"]), gopt(m["e"], gN))),
+            glist(c["ops"], lambda ch: gbool(ch == "r")),
+            glist(outp, lambda o: "(%s, %s, %s)" % (gN(o["kind"]), bspec_obs(bytes.fromhex(o["d"] or "")),
+                                                     gopt(None if o["e"] < 0 or o["kind"] != 2 else o["e"], gN)))))
+    ctx.sample({"sub": "hbq", "case": js[-1], "observed": res[-1]})
+    mm = yield ("coq", terms)
+    if mm:
+        ctx.cov["mismatches"] += len(mm)
+        i = mm[0]
+        ctx.broken("correspondence", "queue model (hb_step) and hbConn disagree on %d schedule(s)" % len(mm),
+                   {"hbq_cases": [js[i]], "observed": res[i]})
+
+
+# ------------------------------------------------------------------ (ii) watchdog, measured
+def gen_wd_cases(ctx):
+    rng = ctx.rng
+    quick = ctx.tier == "quick"
+    cases = []
+    iv = 120
+    fixed = [([2, 6, 10], [3], 30), ([2, 6, 10, 14, 18], [], 22), ([], [], 14), ([2], [1, 5], 20),
+             ([2, 3, 6, 6, 10], [], 26), ([6], [], 20), ([2, 6, 14], [], 28)]
+    for hb, data, q in fixed:
+        cases.append({"interval_ms": iv, "hb_at": hb, "data_at": data, "quarters": q, "deadlines": False})
+    for _ in range(8 if quick else 40):
+        n = rng.randrange(0, 6)
+        hb = sorted(rng.sample([2, 6, 10, 14, 18, 22], n)) if n else []
+        if rng.random() < 0.3:
+            hb += [x + 1 for x in hb[:1]]
+        cases.append({"interval_ms": iv, "hb_at": sorted(hb), "data_at": [], "quarters": 34, "deadlines": False})
+    # the read deadline of the stream as a second watchdog (oracle only)
+    cases.append({"interval_ms": iv, "hb_at": [2], "data_at": [], "quarters": 16, "deadlines": True})
+    cases.append({"interval_ms": iv, "hb_at": [2, 6, 10, 14], "data_at": [], "quarters": 18, "deadlines": True})
+    return cases
+
+
+def wd_expect(c):
+    """per-sleep heartbeat counts for the model"""
+    nint = c["quarters"] // 4          # complete sleeps inside the observation
+    hbs = [0] * nint
+    for q in c["hb_at"]:
+        if q // 4 < nint:
+            hbs[q // 4] += 1
+    return hbs
+
+
+def wd_eval(ctx, c, r, final):
+    """returns (problem or None, unstable?)"""
+    iv = c["interval_ms"]
+    closed = r["closed_at_ms"]
+    if r["surfaced"]:
+        return ("hb-surfaced", "%d heartbeat(s) were returned by Read" % r["surfaced"]), False
+    last_hb = max(c["hb_at"]) * iv / 4 if c["hb_at"] else 0
+    end = c["quarters"] * iv / 4
+    tol = 0.6 * iv
+    if closed < 0:
+        if end > last_hb + 2 * iv + tol:
+            return ("silent-peer-not-closed", "no heartbeat after %.0f ms, still open at %.0f ms (interval %d ms)" % (last_hb, end, iv)), False
+        return None, False
+    if closed > last_hb + 2 * iv + tol:
+        return ("silent-peer-closed-late", "closed %.0f ms after the last heartbeat (interval %d ms)" % (closed - last_hb, iv)), True
+    # never closed while every sleep so far saw a heartbeat (mid-interval heartbeats only)
+    if not c["deadlines"]:
+        tick = int(closed // iv)            # the wake-up that closed is tick >= 1
+        covered = all(any(q // 4 == k and q % 4 in (1, 2, 3) for q in c["hb_at"]) for k in range(0, max(0, round(closed / iv))))
+        if covered and round(closed / iv) >= 1:
+            return ("live-peer-closed", "closed at %.0f ms although every interval before it had a heartbeat" % closed), True
+    return None, False
+
+
+def run_wd(ctx):
+    cases = gen_wd_cases(ctx)
+    files = dict(DRV)
+    files["zz_verif_stream_test.go"] = "c16/stream_driver_test.go"
+
+    def go(cs):
+        rc, out, res = ctx.go_inpkg(".", "pkg/dtls", files, "^TestVerifC16Watchdog$", cs, timeout=300)
+        if res is None or len(res) != len(cs):
+            ctx.broken("driver", "Go watchdog driver did not produce results: %s" % out[-800:])
+            return None
+        return res
+    res = go(cases)
+    if res is None:
+        return
+    terms, tcases = [], []
+    for c, r in zip(cases, res):
+        iv = c["interval_ms"]
+        prob, _ = wd_eval(ctx, c, r, False)
+        model_ok = True
+        if not c["deadlines"]:
+            tick = 0 if r["closed_at_ms"] < 0 else int(round(r["closed_at_ms"] / iv))
+            off = abs(r["closed_at_ms"] - tick * iv) if tick else 0
+            model_ok = (tick, off)
+        # timing-sensitive: confirm by re-running alone before reporting
+        attempts = 0
+        while (prob is not None) and attempts < 2:
+            attempts += 1
+            r2 = go([c])
+            if r2 is None:
+                return
+            r = r2[0]
+            prob, _ = wd_eval(ctx, c, r, True)
+        ctx.count((tuple(c["hb_at"]), tuple(c["data_at"]), c["quarters"], c["deadlines"]),
+                  kind="wd/%s%s" % ("closed" if r["closed_at_ms"] >= 0 else "open", "+deadline" if c["deadlines"] else ""))
+        if prob:
+            ctx.fail("wd/" + prob[0], "heartbeat watchdog (measured, interval %d ms): %s" % (iv, prob[1]),
+                     {"wd_cases": [c], "observed": r})
+        if not c["deadlines"]:
+            tick = 0 if r["closed_at_ms"] < 0 else int(round(r["closed_at_ms"] / iv))
+            terms.append("CWd %s %s" % (glist(wd_expect(c), lambda n: "%d%%nat" % n), gN(tick)))
+            tcases.append((c, r))
+    ctx.sample({"sub": "watchdog", "case": cases[0], "observed": res[0]})
+    mm = yield ("coq", terms)
+    if mm:
+        # a mismatch may be a timer that fired late under load: re-measure those cases alone
+        still = []
+        for i in mm:
+            c, _ = tcases[i]
+            okay = False
+            for _ in range(2):
+                r2 = go([c])
+                if r2 is None:
+                    return
+                tick = 0 if r2[0]["closed_at_ms"] < 0 else int(round(r2[0]["closed_at_ms"] / c["interval_ms"]))
+                t = "CWd %s %s" % (glist(wd_expect(c), lambda n: "%d%%nat" % n), gN(tick))
+                m2 = ctx.coq_mismatches("wd_retry", HEADER, [t], "chk")
+                if m2 == []:
+                    okay = True
+                    break
+            if not okay:
+                still.append(i)
+        if still:
+            ctx.cov["mismatches"] += len(still)
+            c, r = tcases[still[0]]
+            ctx.broken("correspondence", "watchdog automaton (wstep) and hbLoop disagree on %d measured case(s) (confirmed by re-runs)"
+                       % len(still), {"wd_cases": [c], "observed": r})
+
+
+# ------------------------------------------------------------------ (iv) registry, scripted
+REG_OPS = {"start": 0, "cancel": 1, "astep": 2, "arecv": 3, "acancelled": 4, "cstep": 5, "csend": 6, "ctimeout": 7}
+
+
+def gen_reg_cases(ctx):
+    rng = ctx.rng
+    quick = ctx.tier == "quick"
+    cases = []
+
+    def finish(c):
+        # let every acceptor return so that the final snapshot is "after all calls returned"
+        for a in range(len(c["asec"])):
+            c["ops"].append(("cancel", a))
+            if not c["areal"][a]:
+                c["ops"] += [("astep", a), ("astep", a), ("acancelled", a), ("arecv", a), ("astep", a), ("astep", a)]
+        return c
+    # hand-written: concurrent accepts with distinct, equal and unregistered secrets
+    cases.append(finish({"nsec": 3, "asec": [0, 0, 1], "areal": [True, True, False], "csec": [0, 1, 0, 2],
+                         "ops": [("start", 0), ("start", 1), ("astep", 2), ("astep", 2), ("cstep", 0), ("cstep", 0), ("cstep", 0),
+                                 ("csend", 0), ("cstep", 1), ("cstep", 1), ("cstep", 1), ("csend", 1), ("arecv", 2), ("astep", 2),
+                                 ("astep", 2), ("cstep", 2), ("cstep", 2), ("cstep", 3), ("cstep", 3)]}))
+    # a manual acceptor paused between registerCert and registerChannel, and between the two removals
+    cases.append(finish({"nsec": 2, "asec": [0, 0, 0], "areal": [False, True, True], "csec": [0],
+                         "ops": [("astep", 0), ("start", 1), ("astep", 0), ("cancel", 0), ("acancelled", 0), ("astep", 0), ("start", 2),
+                                 ("astep", 0)]}))
+    # stale channel: the connection thread holds a channel whose acceptor left
+    cases.append(finish({"nsec": 2, "asec": [0, 0], "areal": [True, True], "csec": [0, 0],
+                         "ops": [("start", 0), ("cstep", 0), ("cstep", 0), ("cstep", 0), ("cancel", 0), ("start", 1), ("csend", 0),
+                                 ("cstep", 1), ("cstep", 1), ("cstep", 1), ("csend", 1)]}))
+    for _ in range(120 if quick else 3000):
+        nsec = rng.randrange(2, 4)
+        na = rng.randrange(2, 6)
+        nc = rng.randrange(1, 6)
+        reg_secs = nsec - 1 if rng.random() < 0.5 else nsec   # sometimes the last secret is never used by an acceptor
+        c = {"nsec": nsec, "asec": [rng.randrange(reg_secs) for _ in range(na)],
+             "areal": [rng.random() < 0.5 for _ in range(na)],
+             "csec": [rng.randrange(nsec) for _ in range(nc)], "ops": []}
+        for _ in range(rng.randrange(8, 45)):
+            r = rng.random()
+            if r < 0.45:
+                a = rng.randrange(na)
+                if c["areal"][a]:
+                    c["ops"].append((rng.choice(["start", "start", "start", "cancel"]), a))
+                else:
+                    c["ops"].append((rng.choice(["astep", "astep", "astep", "arecv", "acancelled", "cancel"]), a))
+            else:
+                t = rng.randrange(nc)
+                c["ops"].append((rng.choice(["cstep", "cstep", "cstep", "csend", "csend", "ctimeout"]), t))
+        cases.append(finish(c))
+    return cases
+
+
+def run_reg(ctx):
+    cases = gen_reg_cases(ctx)
+    js = []
+    for c in cases:
+        secrets = [bytes([0x51 + i]) * (8 + i) for i in range(c["nsec"])]
+        js.append({"secrets": [x.hex() for x in secrets], "asec": c["asec"], "areal": c["areal"], "csec": c["csec"],
+                   "ops": [{"op": o, "t": t} for o, t in c["ops"]]})
+    res, out = yield ("go", "reg", js)
+    if res is None or len(res) != len(cases):
+        ctx.broken("driver", "Go registry driver did not produce results: %s" % out[-800:])
+        return
+    terms = []
+    for c, j, r in zip(cases, js, res):
+        steps = r.get("steps") or []
+        ares = r.get("ares") or []
+        apc = r.get("apc") or []
+        bad = None
+        if r.get("note") or len(steps) != len(c["ops"]):
+            bad = ("driver-stopped", r.get("note", "driver stopped early"))
+        seen = {}
+        for a, x in enumerate(ares):
+            if x >= 100:
+                cidx = x - 100
+                if c["csec"][cidx] != c["asec"][a]:
+                    bad = ("cross-delivery", "acceptor %d (secret %d) received connection %d made with secret %d"
+                           % (a, c["asec"][a], cidx, c["csec"][cidx]))
+                if cidx in seen:
+                    bad = ("double-delivery", "connection %d delivered to acceptors %d and %d" % (cidx, seen[cidx], a))
+                seen[cidx] = a
+        if steps and all(p in (0, 5) for p in apc) and (steps[-1]["ncerts"] or steps[-1]["nchans"]):
+            bad = ("registry-leak", "after every accept returned: %d certificate entr(y/ies), %d channel entr(y/ies) left"
+                   % (steps[-1]["ncerts"], steps[-1]["nchans"]))
+        kinds = []
+        if any(x >= 100 for x in ares):
+            kinds.append("delivered")
+        if 1 in ares:
+            kinds.append("dup")
+        if 3 in ares:
+            kinds.append("cancelled")
+        ctx.count((c["nsec"], tuple(c["asec"]), tuple(c["areal"]), tuple(c["csec"]), tuple(c["ops"])),
+                  kind="reg/" + ("+".join(kinds) or "idle"))
+        for k in kinds:
+            ctx.count(("k", k, len(terms)), nontrivial=False, kind="reg/has-" + k)
+        if bad:
+            ctx.fail("registry/" + bad[0], "listener registry (scripted schedule): " + bad[1], {"reg_cases": [j], "observed": r})
+        terms.append("CReg %d%%nat %s %s %s %s %s %s %s" % (
+            c["nsec"], glist(c["asec"], gN), glist(c["areal"], gbool), glist(c["csec"], gN),
+            glist(c["ops"], lambda x: "(%s, %d%%nat)" % (gN(REG_OPS[x[0]]), x[1])),
+            glist(steps, lambda st: "(%s, %s, %s)" % (gN(st["r"] + 1), gN(st["ncerts"]), gN(st["nchans"]))),
+            glist(ares, lambda x: gN(x + 1)), glist(apc, gN)))
+    ctx.sample({"sub": "registry", "case": js[0], "observed": res[0]})
+    mm = yield ("coq", terms)
+    if mm:
+        ctx.cov["mismatches"] += len(mm)
+        i = mm[0]
+        ctx.broken("correspondence", "registry LTS (lstep) and the Listener's registry methods disagree on %d schedule(s)" % len(mm),
+                   {"reg_cases": [js[i]], "observed": res[i]})
+
+
+# ------------------------------------------------------------------ (v) key material
+def run_mat(ctx):
+    rng = ctx.rng
+    quick = ctx.tier == "quick"
+    cases = []
+    for ln in [0, 1, 15, 16, 32, 33, 64, 100] + [rng.randrange(1, 80) for _ in range(12 if quick else 300)]:
+        s = bytes(rng.getrandbits(8) for _ in range(ln))
+        o = bytes(rng.getrandbits(8) for _ in range(rng.choice([ln, ln + 1, 32])))
+        if o == s:
+            o = s + b"\x00"
+        cases.append({"secret": s.hex(), "other": o.hex()})
+    # near-equal secrets
+    base = bytes(range(32))
+    cases.append({"secret": base.hex(), "other": (base[:-1] + b"\x20").hex()})
+    cases.append({"secret": base.hex(), "other": (base + b"\x00").hex()})
+    res, out = yield ("go", "mat", cases)
+    if res is None or len(res) != len(cases):
+        ctx.broken("driver", "Go key-material driver did not produce results: %s" % out[-800:])
+        return
+    terms = []
+    hellos = {}
+    for c, r in zip(cases, res):
+        bad = None
+        if r.get("err"):
+            bad = ("derivation-error", r["err"])
+        elif not r["again"]:
+            bad = ("same-secret-different-material", "two derivations from the same secret differ")
+        elif not r["self_verify"]:
+            bad = ("same-secret-not-verified", "certificates derived twice from one secret do not verify against each other")
+        elif r["cross_verify"]:
+            bad = ("different-secret-verified", "a certificate derived from another secret passes verifyCert")
+        elif r["hello"] == r["other_hello"]:
+            bad = ("hello-random-collision", "two different secrets give the same hello-random")
+        elif not (r["client"]["pubok"] and r["server"]["pubok"]):
+            bad = ("public-key-mismatch", "certificate public key is not the derived key")
+        ctx.count(c["secret"], kind="mat/len%s" % ("0" if not c["secret"] else "N"))
+        if bad:
+            ctx.fail("material/" + bad[0], "seedtocert: " + bad[1], {"mat_cases": [c], "observed": r})
+            continue
+        if r["hello"] in hellos and hellos[r["hello"]] != c["secret"]:
+            ctx.fail("material/hello-random-collision", "two different secrets give the same hello-random", {"mat_cases": [c]})
+        hellos[r["hello"]] = c["secret"]
+        terms.append("CMat %s %s %s %s %s %s %s %s %s" % (
+            hexs(bytes.fromhex(r["stream_hello"])), hexs(bytes.fromhex(r["stream_certs"])), hexs(bytes.fromhex(r["hello"])),
+            gN(int(r["client"]["d"], 16)), gN(int(r["client"]["serial"], 16)), hexs(bytes.fromhex(r["client"]["cn"])),
+            gN(int(r["server"]["d"], 16)), gN(int(r["server"]["serial"], 16)), hexs(bytes.fromhex(r["server"]["cn"]))))
+    ctx.sample({"sub": "material", "case": cases[2], "observed": {k: v for k, v in res[2].items() if k != "stream_certs"}})
+    mm = yield ("coq", terms)
+    if mm:
+        ctx.cov["mismatches"] += len(mm)
+        i = mm[0]
+        ctx.broken("correspondence", "derivation model (hello_random / cert_of) and seedtocert.go disagree on %d secret(s)" % len(mm),
+                   {"mat_cases": [cases[i]], "observed": res[i]})
+
+
+# ------------------------------------------------------------------ real Listener + Dial over loopback (oracle only)
+def gen_lb_cases(ctx):
+    rng = ctx.rng
+    quick = ctx.tier == "quick"
+    sizes = [2, 8] if quick else [2, 3, 5, 8, 12, 16, 24, 32, 32]
+    cases = []
+    for npairs in sizes:
+        nsec = npairs + 2
+        secrets = [bytes(rng.getrandbits(8) for _ in range(rng.choice([16, 32])))for _ in range(nsec)]
+        accs, dials = [], []
+        for s in range(npairs):
+            cancel = -1
+            if npairs > 2 and rng.random() < 0.3:
+                cancel = rng.randrange(0, 120)
+            accs.append({"sec": s, "cancel_ms": cancel, "dup": False})
+            dials.append({"sec": s, "delay_ms": rng.randrange(0, 100) if cancel >= 0 else rng.randrange(0, 20)})
+        # a second accept for a registered secret, a second dial with an equal secret, dials with unregistered secrets
+        for s in rng.sample(range(npairs), max(1, npairs // 4)):
+            accs.append({"sec": s, "cancel_ms": -1, "dup": True})
+        if npairs > 2:
+            dials.append({"sec": rng.randrange(npairs), "delay_ms": rng.randrange(0, 30)})
+        dials.append({"sec": nsec - 1, "delay_ms": 0})
+        dials.append({"sec": nsec - 2, "delay_ms": rng.randrange(0, 30)})
+        cases.append({"secrets": [x.hex() for x in secrets], "accs": accs, "dials": dials, "npairs": npairs})
+    return cases
+
+
+def lb_eval(c, r):
+    probs = []
+    if r.get("note"):
+        probs.append(("driver", r["note"], True))
+        return probs
+    npairs = c["npairs"]
+    delivered = {}
+    for i, (a, ar) in enumerate(zip(c["accs"], r["accs"])):
+        if ar["err"] == 0 and ar["tag"]:
+            sec, di = [int(x) for x in ar["tag"].split("/")]
+            if sec != a["sec"]:
+                probs.append(("cross-delivery", "accept %d for secret %d got the connection of dial %d made with secret %d"
+                              % (i, a["sec"], di, sec), False))
+            if di in delivered:
+                probs.append(("double-delivery", "dial %d was delivered to accepts %d and %d" % (di, delivered[di], i), False))
+            delivered[di] = i
+        if a["dup"] and ar["err"] != 1:
+            probs.append(("duplicate-accept-not-refused", "second accept for registered secret %d returned %r (%s)"
+                          % (a["sec"], ar["err"], ar.get("errtext", "")), True))
+        if not a["dup"] and a["cancel_ms"] < 0:
+            nd = sum(1 for d in c["dials"] if d["sec"] == a["sec"])
+            if nd >= 1 and ar["err"] != 0:
+                probs.append(("accept-failed", "accept %d for secret %d with a matching dial failed: %s" % (i, a["sec"], ar.get("errtext", "")), True))
+        if a["cancel_ms"] >= 0 and ar["err"] == 3 and ar["elapsed_ms"] > a["cancel_ms"] + 1500:
+            probs.append(("cancel-not-prompt", "accept %d returned %.0f ms after start, cancelled at %d ms" % (i, ar["elapsed_ms"], a["cancel_ms"]), True))
+    used = set(a["sec"] for a in c["accs"])
+    for i, (d, dr) in enumerate(zip(c["dials"], r["dials"])):
+        if d["sec"] not in used and dr["ok"]:
+            probs.append(("unregistered-dial-succeeded", "dial %d with a secret nobody accepts completed" % i, False))
+        if dr["ok"]:
+            sec, ai = [int(x) for x in dr["echo"].split("/")]
+            if sec != d["sec"]:
+                probs.append(("cross-delivery", "dial %d with secret %d talked to accept %d of secret %d" % (i, d["sec"], ai, sec), False))
+    if r["ncerts_after"] or r["nchans_after"]:
+        probs.append(("registry-leak", "after all calls returned connToCert has %d and connMap %d entr(y/ies)"
+                      % (r["ncerts_after"], r["nchans_after"]), False))
+    if r["ncerts_mid"] != sum(1 for a in c["accs"] if not a["dup"]):
+        probs.append(("registration-count", "%d certificates registered while %d accepts wait" %
+                      (r["ncerts_mid"], sum(1 for a in c["accs"] if not a["dup"])), True))
+    return probs
+
+
+def run_lb(ctx):
+    cases = gen_lb_cases(ctx)
+    files = dict(DRV)
+    files["zz_verif_listener_test.go"] = "c16/listener_driver_test.go"
+    race = ctx.tier == "thorough"
+
+    def go(cs):
+        rc, out, res = ctx.go_inpkg(".", "pkg/dtls", files, "^TestVerifC16Loopback$",
+                                    [{k: v for k, v in c.items() if k != "npairs"} for c in cs], timeout=900, race=race)
+        if "WARNING: DATA RACE" in out:
+            ctx.fail("loopback/data-race", "go test -race reports a data race in pkg/dtls under concurrent Accept/Dial",
+                     {"race_report": out[out.index("WARNING: DATA RACE"):][:1500]})
+        if res is None or len(res) != len(cs):
+            ctx.broken("driver", "Go loopback driver did not produce results: %s" % out[-800:])
+            return None
+        return res
+    res = go(cases)
+    if res is None:
+        return
+    for c, r in zip(cases, res):
+        probs = lb_eval(c, r)
+        # timing-dependent complaints are confirmed by re-running the case alone
+        if probs and all(p[2] for p in probs):
+            for _ in range(2):
+                r2 = go([c])
+                if r2 is None:
+                    return
+                probs = lb_eval(c, r2[0])
+                r = r2[0]
+                if not probs:
+                    break
+        nacc_ok = sum(1 for a in r.get("accs", []) if a["err"] == 0)
+        ctx.count((tuple(c["secrets"]), str(c["accs"]), str(c["dials"])),
+                  kind="lb/pairs=%d" % c["npairs"], nontrivial=nacc_ok > 0)
+        if any(a["err"] == 1 for a in r.get("accs", [])):
+            ctx.count(("dup", c["npairs"]), nontrivial=False, kind="lb/has-dup-refused")
+        if any(a["err"] == 3 for a in r.get("accs", [])):
+            ctx.count(("cancel", c["npairs"]), nontrivial=False, kind="lb/has-cancelled")
+        for p in probs:
+            ctx.fail("loopback/" + p[0], "real Listener + Dial over loopback UDP (%d pairs): %s" % (c["npairs"], p[1]),
+                     {"lb_cases": [c], "observed": r})
+    ctx.sample({"sub": "loopback", "pairs": cases[0]["npairs"], "observed": res[0]})
+    ctx.cov["measured_only"] = ["pion DTLS handshake and SCTP association over loopback UDP (oracle on outcomes, no model comparison)",
+                                "heartbeat interval timers (watchdog close time within 2 intervals + tolerance)",
+                                "accept cancellation latency"]
 
 
 def run(ctx):
@@ -229,6 +813,72 @@ def run(ctx):
     ]
     ctx.cov["rule"] = ("a case is one scripted stream x read-size sequence (or op sequence / schedule / secret set); "
                        "non-trivial if hash-distinct and it delivers at least one byte, error, heartbeat or registry event")
+    ctx.assumptions += [
+        "HKDF-SHA256 is a section variable; 'its 28-byte hello-random output separates secrets' is a named hypothesis (hkdf_hello_injective)",
+        "pion completes a DTLS handshake iff both sides hold certificates of the same derived key (assumption of the registry model, step C1)",
+        "the code between Lock/Unlock and single channel operations are atomic steps (Go memory model; -race in the thorough tier)",
+        "the watchdog automaton is tied to hbLoop by measured close times only (real timers)",
+    ]
     ctx.coq_props()
-    run_reads(ctx)
-    ctx.require_kinds(["read/data-equals-heartbeat"])
+    only = (ctx.replay or {}).get("only")
+    subs = [("read", run_reads), ("fc", run_fc), ("hbq", run_hbq), ("reg", run_reg), ("mat", run_mat), ("wd", run_wd), ("lb", run_lb)]
+    import time
+    ctx.cov["timing_s"] = {}
+    t0 = time.time()
+    gens, want_go, want_coq = {}, {}, {}
+
+    def advance(name, val=None):
+        g = gens[name]
+        try:
+            req = next(g) if val is None else g.send(val)
+        except StopIteration:
+            return
+        if req[0] == "go":
+            want_go[name] = req
+        else:
+            want_coq[name] = req[1]
+    # the watchdog is measured first (real timers), then everything deterministic in one test-binary run
+    for name, f in subs:
+        if only and name not in only:
+            continue
+        if name == "lb":
+            continue
+        gens[name] = f(ctx)
+        advance(name)
+    ctx.cov["timing_s"]["generate+watchdog"] = round(time.time() - t0, 1)
+    t0 = time.time()
+    if want_go:
+        files = dict(DRV)
+        for fn in ("read", "stream", "listener", "all"):
+            files["zz_verif_%s_test.go" % fn] = "c16/%s_driver_test.go" % fn
+        batch = {req[1]: req[2] for req in want_go.values()}
+        rc, out, res = ctx.go_inpkg(".", "pkg/dtls", files, "^TestVerifC16All$", batch, timeout=1500)
+        pending = dict(want_go)
+        want_go.clear()
+        for name, req in pending.items():
+            r = (res or {}).get(req[1])
+            advance(name, (r, out))
+    ctx.cov["timing_s"]["go-drivers"] = round(time.time() - t0, 1)
+    t0 = time.time()
+    if (not only or "lb" in only):
+        run_lb(ctx)
+    ctx.cov["timing_s"]["loopback"] = round(time.time() - t0, 1)
+    t0 = time.time()
+    if want_coq:
+        names = list(want_coq)
+        allterms, offs = [], {}
+        for n in names:
+            offs[n] = len(allterms)
+            allterms += want_coq[n]
+        mm = ctx.coq_mismatches("all", HEADER, allterms, "chk", shard=max(60, len(allterms) // 14 + 1), need_vo=["C16/Run.vo"])
+        for n in names:
+            if mm is None:
+                local = None
+            else:
+                local = [i - offs[n] for i in mm if offs[n] <= i < offs[n] + len(want_coq[n])]
+            advance(n, local if local is not None else [])
+    ctx.cov["timing_s"]["coq-evaluation"] = round(time.time() - t0, 1)
+    if not only:
+        ctx.require_kinds(["read/data-equals-heartbeat", "fc/has-stale-token", "fc/has-blocked", "fc/has-limit",
+                           "fc/has-closed-while-blocked", "reg/has-delivered", "reg/has-dup", "reg/has-cancelled",
+                           "lb/has-dup-refused", "wd/closed", "wd/open"])
